@@ -657,7 +657,6 @@ func (server *SugarDB) evictKeysWithExpiredTTL(ctx context.Context) error {
 
 	// Loop through the keys and delete them if they're expired
 	server.storeLock.Lock()
-	defer server.storeLock.Unlock()
 	for _, k := range keys {
 		// Only keys whose expiry time has passed are evicted.
 		entry, ok := server.store[database][k]
@@ -668,14 +667,19 @@ func (server *SugarDB) evictKeysWithExpiredTTL(ctx context.Context) error {
 		deletedCount += 1
 		if !server.isInCluster() {
 			if err := server.deleteKey(ctx, k); err != nil {
+				server.storeLock.Unlock()
 				return fmt.Errorf("evictKeysWithExpiredTTL -> standalone delete: %+v", err)
 			}
 		} else if server.isInCluster() && server.raft.IsRaftLeader() {
 			if err := server.raftApplyDeleteKey(ctx, k); err != nil {
+				server.storeLock.Unlock()
 				return fmt.Errorf("evictKeysWithExpiredTTL -> cluster delete: %+v", err)
 			}
 		}
 	}
+
+	// Release the store lock before a possible re-run: the mutex is not reentrant.
+	server.storeLock.Unlock()
 
 	// If sampleSize is 0, there's no need to calculate deleted percentage.
 	if sampleSize == 0 {
